@@ -173,6 +173,31 @@ def both_specified(job, entry, N):
 MODEL_ENTRY = ("driving_force", "flux_solver", "permeate_composition", "separation_factor", "ideal_curve", "non_ideal_curve") + proc.KINDS
 
 
+def concrete_after_valid(inp):
+    """rejection is a matter of the specification handed in, not of what the interpreter computed before: the valid call with the complete
+    built-in mixture first, then the same call at the same arguments with a mixture of the same name that lacks the requested model's
+    parameters -- a labelled concrete point (a call history; module- or object-level state has no counterpart in one lifted call)"""
+    import warnings
+    e = inp["missing_model_entry"]
+    bad = []
+    for model, without in (("UNIQUAC", "uniquac"),):
+        for tp, pp in ((None, None), (293.15, None), (None, 1.0)):
+            with warnings.catch_warnings():
+                warnings.simplefilter("ignore")
+                try:
+                    _call_real(e, both=True, Tp=tp, Pp=pp, model=model)
+                except Exception:
+                    continue  # the valid call itself is not the subject here
+                try:
+                    _call_real(e, both=True, Tp=tp, Pp=pp, model=model, without=without)
+                    bad.append("%s accepted calculation_type=%r for a mixture without %s parameters after the same call with a complete mixture "
+                               "of the same name (permeate T=%r, p=%r)" % (e, model, model, tp, pp))
+                    break
+                except (ValueError, KeyError, TypeError, AttributeError):
+                    pass
+    return {"ok": not bad, "detail": "; ".join(bad), "inputs": inp}
+
+
 def missing_model(job, entry):
     """an activity model whose parameters are missing is rejected by every entry point that computes a driving force, not only by the
     thermodynamic functions: UNIQUAC requested for a mixture that has NRTL parameters only (real calculate_activity_coefficients)"""
@@ -218,6 +243,7 @@ def missing_model(job, entry):
                           fallback=[{"missing_model_entry": entry}])
         if n == 0:
             job.vacuity["failed"].append(tag + ": no path")
+    job.refute_concretely(tag + "/after_the_valid_call_with_a_like_named_complete_mixture", "vf.props.C19:concrete_after_valid", {"missing_model_entry": entry})
 
 
 def _incomplete(cls, symbolic=True, x=0.4, T=333.15):
